@@ -2,6 +2,7 @@ package main
 
 import (
 	"fmt"
+	"github.com/pip-services3-gox/pip-services3-expressions-gox/calculator/variables"
 	"strings"
 
 	"github.com/pip-services3-gox/pip-services3-expressions-gox/calculator"
@@ -179,6 +180,89 @@ func execC03(seg []Ev) []Ev {
 			})
 			det = d
 			e["outcome"] = valErr(oc, res != nil, err)
+		case "lifecycle":
+			// a seeded walk over the public calls of several calculators and templates that are alive together: setting, evaluating,
+			// changing variables and functions, clearing.  Every call returns normally; the last evaluating call is classified.
+			e["kind"] = "valerr"
+			seed := int64(toInt(in["lseed"]))
+			e["lseed"] = int(seed)
+			var res *variants.Variant
+			var err error
+			trail := ""
+			oc, d := guarded(func() {
+				r := newRand(seed)
+				calcs := []*calculator.ExpressionCalculator{calculator.NewExpressionCalculator(), calculator.NewExpressionCalculator(), calculator.NewExpressionCalculator()}
+				tmpls := []*mustache.MustacheTemplate{mustache.NewMustacheTemplate(), mustache.NewMustacheTemplate()}
+				exprs := []string{"a + b", "b * 2", "Max(a, 3) + Nope(1)", "Twice(a)", "a[1]", "1 / 0", "(a", "Rnd() < 2", "x y", "'s' + a", "Min(1, 2)", ""}
+				names := []string{"a", "b", "A", "x", "Rnd", "Max", "min", "Twice", "nope"}
+				res, err = variants.VariantFromInteger(0), nil
+				for step := 0; step < 14; step++ {
+					c := calcs[r.Intn(len(calcs))]
+					t := tmpls[r.Intn(len(tmpls))]
+					nm := names[r.Intn(len(names))]
+					k := r.Intn(17)
+					trail += fmt.Sprint(k, ",")
+					switch k {
+					case 0, 1, 2:
+						c.SetExpression(exprs[r.Intn(len(exprs))])
+					case 3, 4, 5:
+						res, err = c.Evaluate()
+					case 6:
+						c.DefaultVariables().RemoveByName(nm)
+					case 7:
+						c.DefaultVariables().Add(variables.NewVariable(nm, variants.VariantFromInteger(r.Intn(5))))
+					case 8:
+						c.DefaultFunctions().RemoveByName(nm)
+					case 9:
+						c.DefaultFunctions().Add(functions.NewDelegatedFunction("Twice", func(p []*variants.Variant, o variants.IVariantOperations) (*variants.Variant, error) {
+							return o.Add(p[0], p[0])
+						}))
+					case 10:
+						c.Clear()
+					case 11:
+						c.SetAutoVariables(r.Intn(2) == 0)
+					case 12:
+						if v := c.DefaultVariables().FindByName(nm); v != nil {
+							v.SetValue(variants.VariantFromArray([]*variants.Variant{variants.VariantFromInteger(1), variants.VariantFromString("x")}))
+						}
+					case 13:
+						t.SetTemplate([]string{"Hi {{a}}", "{{#a}}x{{/a}}", "{{#a}}", "{{b}}{{^c}}n{{/c}}", ""}[r.Intn(5)])
+					case 14:
+						t.Evaluate()
+					case 15:
+						t.Clear()
+					default:
+						res, err = c.EvaluateUsingVariables(c05vars())
+					}
+				}
+			})
+			det = d
+			if oc != "ok" {
+				det = d + " after calls " + trail
+			}
+			e["outcome"] = valErr(oc, res != nil, err)
+		case "reenter":
+			// a user-registered function whose body evaluates an expression on another calculator
+			e["kind"] = "valerr"
+			var res *variants.Variant
+			var err error
+			oc, d := guarded(func() {
+				inner := calculator.NewExpressionCalculator()
+				calc := calculator.NewExpressionCalculator()
+				calc.DefaultFunctions().Add(functions.NewDelegatedFunction("Twice", func(p []*variants.Variant, o variants.IVariantOperations) (*variants.Variant, error) {
+					if e := inner.SetExpression("v * 2 + Max(v, 1)"); e != nil {
+						return nil, e
+					}
+					inner.DefaultVariables().FindByName("v").SetValue(p[0])
+					return inner.Evaluate()
+				}))
+				if err = calc.SetExpression(input); err != nil {
+					return
+				}
+				res, err = calc.Evaluate()
+			})
+			det = d
+			e["outcome"] = valErr(oc, res != nil, err)
 		case "operator":
 			e["kind"] = "valerr"
 			pool := valuePool(true)
@@ -250,6 +334,12 @@ func genC03(g *Gen) {
 		for _, x := range []string{"Boom()", "Boom(1)", "1 + Boom(2, 3)", "Min(Boom(1), 2)", "boom(1) IS NULL"} {
 			run("user-registered failing functions", Ev{"api": "userfunc", "kind2": how, "input": cps(x)})
 		}
+	}
+	for s := 1; s <= g.Pick(4000, 60000); s++ {
+		run("walks over the calls of several calculators and templates alive together", Ev{"api": "lifecycle", "lseed": s + 100000*int(g.Seed)})
+	}
+	for _, x := range []string{"Twice(20)", "1 + Twice(20)", "Max(3, Twice(20), 7)", "Array(5, Twice(3))[0]", "Twice(Twice(2)) * Twice(1)", "Twice('a')", "Twice()", "1 / (Twice(1) - 3) + Twice(2)"} {
+		run("a user function that evaluates on another calculator", Ev{"api": "reenter", "input": cps(x)})
 	}
 	// every token string up to a bound over the representative token vocabulary, as text
 	var rec func(cur []string)
